@@ -93,7 +93,7 @@ def build_log_pass(rng, names, profiles, scales, n, up, xunits=b'FEET'):
     blocks = {4: (1, 66, 1 if up else 255), 12: (4, 68, -999.25)}
     lrs = [GLL.file_head(), GLL.dfsr(blocks, chans)]
     x0 = {b'FEET': 1000.0, b'.1IN': 120000.0, b'M   ': 304.75}[xunits]          # about 1000 ft, exact in code 68
-    dx = (-1 if up else 1) * {b'FEET': 0.5, b'.1IN': 60.0, b'M   ': 0.125}[xunits]
+    dx = (-1 if up else 1) * {b'FEET': 0.5, b'.1IN': 60.0, b'M   ': 0.25}[xunits]          # multiples of 0.01 so that the 1e-2 quantisation of x is exact
     cols = []
     for nm, prof, (le, re_) in zip(names, profiles, scales):
         vals = make_values(rng, prof['kind'], n, le, re_)
